@@ -1,5 +1,6 @@
 """C14 extras: sibling rules over the three Integer back-ends, primality skeleton."""
 import ast
+import re
 
 from ..absint import Interp
 from ..absstate import State
@@ -276,6 +277,203 @@ def number_rows(check, repo):
     check.count("number_rows", n)
 
 
+def _ref_jacobi(a, n):
+    a %= n
+    t = 1
+    while a:
+        while a % 2 == 0:
+            a //= 2
+            if n % 8 in (3, 5):
+                t = -t
+        a, n = n, a
+        if a % 4 == 3 and n % 4 == 3:
+            t = -t
+        a %= n
+    return t if n == 1 else 0
+
+
+def _is_prime(n):
+    if n < 2:
+        return False
+    i = 2
+    while i * i <= n:
+        if n % i == 0:
+            return False
+        i += 1
+    return True
+
+
+def _isqrt_exact(n):
+    import math
+    r = math.isqrt(n)
+    return r * r == n
+
+
+def ref_lucas(n):
+    """FIPS 186-4 C.3.3 with Selfridge's parameters, U_{n+1} by the plain linear recurrence (no doubling formulas:
+    independent of the code under test).  True = PROBABLY_PRIME."""
+    if n in (2, 3, 5):
+        return True
+    if n < 2 or n % 2 == 0 or _isqrt_exact(n):
+        return False
+    D = 5
+    while True:
+        if n not in (D, -D):
+            j = _ref_jacobi(D, n)
+            if j == 0:
+                return False
+            if j == -1:
+                break
+        D = -(D + 2) if D > 0 else -(D - 2)
+    Q = (1 - D) // 4
+    u0, u1 = 0, 1
+    for _ in range(n):
+        u0, u1 = u1, (u1 - Q * u0) % n
+    return u1 == 0
+
+
+def ref_mr(n, bases):
+    """FIPS 186-4 C.3.1 with the given bases.  True = PROBABLY_PRIME."""
+    if n in (2, 3, 5):
+        return True
+    if n < 2 or n % 2 == 0:
+        return False
+    m, a = n - 1, 0
+    while m % 2 == 0:
+        m //= 2
+        a += 1
+    for b in bases:
+        z = pow(b, m, n)
+        if z in (1, n - 1):
+            continue
+        for _ in range(a - 1):
+            z = z * z % n
+            if z == n - 1:
+                break
+            if z == 1:
+                return False
+        else:
+            return False
+    return True
+
+
+LUCAS_PSP = [323, 377, 1159, 1829, 3827, 5459, 5777, 9071, 9179, 10877, 11419, 11663, 13919, 14839, 16109, 16211, 18407, 18971, 19043]
+SPSP2 = [2047, 3277, 4033, 4681, 8321, 15841, 29341, 42799, 49141, 52633]
+CARMICHAEL = [561, 1105, 1729, 2465, 2821, 6601, 8911, 10585, 15841, 29341, 41041, 46657, 52633, 62745, 63973, 75361]
+
+
+def primality_tables(check, repo, thorough=False):
+    """miller_rabin_test, lucas_test and test_probable_prime of Crypto.Math.Primality interpreted (over the native
+    Integer back-end, Miller-Rabin bases injected) on EVERY candidate below a bound and on the classical adversarial
+    families, and compared with the checker's own FIPS 186-4 C.3.1 / C.3.3 and with trial division."""
+    from .int_table import Backend
+    from ..absval import AClass
+    from ..par import pmap
+    mod = repo.module(PR)
+    be = Backend(repo, "native")
+    f_mr, f_lu, f_pp = repo.func(mod, "miller_rabin_test"), repo.func(mod, "lucas_test"), repo.func(mod, "test_probable_prime")
+    base_call = [n for n in ast.walk(f_mr) if isinstance(n, ast.Call) and isinstance(n.func, ast.Attribute) and n.func.attr == "random_range"]
+    if len(base_call) != 1:
+        raise AnalysisError("anchor vanished: the base selection of miller_rabin_test (Integer.random_range call)")
+    base_key = norm(base_call[0])
+    N = 6000 if thorough else 1300
+    # _sieve_base = set(sieve_base[:100]): read from the literal in Crypto.Util.number and the slice in Primality.py
+    nmod = repo.module("Crypto.Util.number")
+    lit = [n for n in nmod.tree.body if isinstance(n, ast.Assign) and norm(n.targets[0]) == "sieve_base"]
+    use = [n for n in mod.tree.body if isinstance(n, ast.Assign) and norm(n.targets[0]) == "_sieve_base"]
+    if len(lit) != 1 or len(use) != 1:
+        raise AnalysisError("anchor vanished: sieve_base / _sieve_base")
+    sieve = ast.literal_eval(lit[0].value)
+    m = re.match(r"set\(_sieve_base_large\[:(\d+)\]\)$", norm(use[0].value))
+    if not m:
+        raise AnalysisError("_sieve_base is no longer set(_sieve_base_large[:N]): %s" % norm(use[0].value))
+    sieve_set = frozenset(sieve[:int(m.group(1))])
+    not_prime = [x for x in sieve_set if not _is_prime(x)]
+    check.ob("K", "K|primality.sieve", not not_prime and len(sieve_set) == int(m.group(1)), nmod.path, lit[0].lineno,
+             extracted="%d entries, not prime: %s" % (len(sieve_set), not_prime[:5]), expected="every entry of the trial-division table is a prime (a table hit returns PROBABLY_PRIME at once)")
+
+    def run(job):
+        fn, n, bases, extra = job
+        it = be.interp()
+        st = State()
+        seq = list(bases)
+        drawn = []
+
+        def draw(i, st2):
+            b = seq[min(len(drawn), len(seq) - 1)] if seq else 2
+            drawn.append(b)
+            return be.make(i, st2, b)
+        it.inject.update({"Integer": AClass(be.mod, be.cls), base_key: draw, "_sieve_base": sieve_set})
+        it.assert_raises = True
+        it.eager_generators = 48
+        args = {"candidate": be.make(it, st, n)}
+        args.update(extra)
+        res = it.run(mod, fn, args, state=st, bind_defaults=True)
+        if res.rejected():
+            return ("raises",) + tuple(sorted(set(res.raise_classes())))
+        rets = res.returns()
+        if len(rets) != 1 or res.raises():
+            return ("undecided", len(rets), tuple(res.raise_classes()))
+        return rets[0].value
+    # ---- Lucas
+    # domain: n >= 2.  0 and 1 are neither prime nor composite and the property does not speak about them (the
+    # repository's own tests pin miller_rabin_test(1) and lucas_test(1) to PROBABLY_PRIME)
+    cands = list(range(2, N)) + LUCAS_PSP + CARMICHAEL + SPSP2 + [n * n for n in (37, 41, 101)] + [37 * 41, 101 * 103, 8191, 8191 * 3]
+    cands = sorted(set(c for c in cands if c < 80000))
+    got = pmap(run, [(f_lu, n, (), {}) for n in cands])
+    wrong = []
+    for n, g in zip(cands, got):
+        want = 1 if ref_lucas(n) else 0
+        if g != want or isinstance(g, bool):
+            wrong.append("lucas_test(%d) = %r, FIPS 186-4 C.3.3 gives %d%s" % (n, g, want, " (n is %s)" % ("prime" if _is_prime(n) else "not prime")))
+    check.ob("K-pw", "K-pw|primality.lucas", not wrong, mod.path, f_lu.lineno,
+             extracted=("%d of %d candidates differ: " % (len(wrong), len(cands)) + "; ".join(wrong[:4])) if wrong else
+             "%d candidates (all below %d, the Lucas pseudoprimes, Carmichael numbers, squares): as the Lucas test with Selfridge's parameters" % (len(cands), N),
+             expected="lucas_test(n) = PROBABLY_PRIME iff U_(n+1) = 0 mod n for Selfridge's (D, P, Q) (FIPS 186-4 C.3.3); never COMPOSITE for a prime (n >= 2)")
+    total = len(cands)
+    primes_failed = [n for n, g in zip(cands, got) if _is_prime(n) and g != 1]
+    check.ob("K-pw", "K-pw|primality.lucas.primes", not primes_failed, mod.path, f_lu.lineno,
+             extracted="declared composite: %s" % primes_failed[:8] if primes_failed else "every prime of the table is declared PROBABLY_PRIME",
+             expected="no prime is declared composite by the Lucas test")
+    # ---- Miller-Rabin with chosen bases
+    jobs = []
+    for n in list(range(2, 7)) + list(range(7, N // 2, 2)) + [x for x in SPSP2 + CARMICHAEL if x < 70000]:
+        if n < 7:
+            jobs.append((n, (2,)))
+            continue
+        for bases in ((2,), (3,), (n - 2,), (n // 2,), (2, 3), (7, 2, 5)):
+            if all(2 <= b <= n - 2 for b in bases):
+                jobs.append((n, bases))
+    got = pmap(run, [(f_mr, n, bases, {"iterations": len(bases)}) for n, bases in jobs])
+    wrong, primes_failed = [], []
+    for (n, bases), g in zip(jobs, got):
+        want = 1 if ref_mr(n, bases) else 0
+        if g != want or isinstance(g, bool):
+            wrong.append("miller_rabin_test(%d, bases %s) = %r, FIPS 186-4 C.3.1 gives %d" % (n, list(bases), g, want))
+        if _is_prime(n) and g != 1:
+            primes_failed.append(n)
+    total += len(jobs)
+    check.ob("K-pw", "K-pw|primality.miller-rabin", not wrong, mod.path, f_mr.lineno,
+             extracted=("%d of %d rows differ: " % (len(wrong), len(jobs)) + "; ".join(wrong[:4])) if wrong else
+             "%d (candidate, bases) rows: the outcome of FIPS 186-4 C.3.1 for exactly those bases (strong pseudoprimes and Carmichael numbers included)" % len(jobs),
+             expected="miller_rabin_test answers COMPOSITE iff one of the drawn bases is a witness; a prime is never declared composite (n >= 2)")
+    # ---- the combined test: exact on everything below the bound (no number is both a base-2 strong pseudoprime and a Lucas pseudoprime below 2^64)
+    cands = sorted(set(list(range(2, N)) + LUCAS_PSP + CARMICHAEL + SPSP2 + [1009 * 1013, 65537, 65537 * 3, (1 << 61) - 1, ((1 << 61) - 1) * 3, (1 << 64) + 13]))
+    got = pmap(run, [(f_pp, n, (2,), {"randfunc": None}) for n in cands])
+    known_prime = {(1 << 61) - 1: True, (1 << 89) - 1: True, ((1 << 61) - 1) * 3: False, (1 << 64) + 13: True}
+    wrong = []
+    for n, g in zip(cands, got):
+        isp = known_prime[n] if n in known_prime else _is_prime(n)
+        if g != (1 if isp else 0) or isinstance(g, bool):
+            wrong.append("test_probable_prime(%d) = %r but %d is %s" % (n, g, n, "prime" if isp else "not prime"))
+    total += len(cands)
+    check.ob("K-pw", "K-pw|primality.combined", not wrong, mod.path, f_pp.lineno,
+             extracted=("%d of %d candidates differ: " % (len(wrong), len(cands)) + "; ".join(wrong[:4])) if wrong else
+             "%d candidates (all below %d, pseudoprime families, some 61..89-bit numbers): PROBABLY_PRIME exactly for the primes" % (len(cands), N),
+             expected="test_probable_prime(n) = PROBABLY_PRIME iff n is prime, on every candidate below the bound and on Carmichael numbers, strong pseudoprimes to base 2 and Lucas pseudoprimes")
+    check.count("primality_rows", total)
+
+
 def run(check, ctx):
     repo = ctx.repo
     sibling_methods(check, repo)
@@ -283,3 +481,4 @@ def run(check, ctx):
     custom_lengths(check, repo)
     primality(check, repo)
     number_rows(check, repo)
+    primality_tables(check, repo, thorough=ctx.tier == "thorough")
